@@ -326,7 +326,7 @@ int main(int argc, char** argv) {
             bool throttled = false;
             for (int i = 0; i < n && (i == 0 || !c.empty()); i++) k.s.push_back(genSearch(c, i == 0, throttled));
             runAndJudge("configs", k, st);
-        });
+        }, -1, 15);
         rc = vh::finish();
     }
     if (system(("rm -rf " + gWork).c_str())) {}
